@@ -91,6 +91,26 @@ func c11E2EStreams(c *Ctx) {
 		c06E2ECase(c, "e2e-prunefrom-order", "session", []*profile.Profile{order()},
 			[]c06E2EReport{{kind: "traces", opts: o, before: []string{"top"}}, {kind: "traces", opts: map[string]string{}}, {kind: "proto", opts: o}})
 	}
+	// -- round 5: sparse ids + tag roots / leaves + prune_from: the pseudo locations must not share an id
+	//    with a real location (PruneFrom decides per location id)
+	for _, sp := range []int{1, 2, 3} {
+		for _, rx := range []string{"target", "main", "leaf2", "helper", "^a$", "nomatch"} {
+			for k, tr := range [][2][]string{{{"tenant"}, nil}, {nil, {"tenant"}}, {{"zone", "tenant"}, {"zone"}}} {
+				kind, mode := "proto", "cli"
+				if k == 0 {
+					kind = "traces"
+				}
+				if k == 2 {
+					mode = "session"
+				}
+				c06E2ECase(c, "e2e-sparse-ids", mode, []*profile.Profile{c06E2ESparse(sp)},
+					[]c06E2EReport{{kind: kind, opts: c06E2EOpts("prune_from", rx), tagroot: tr[0], tagleaf: tr[1]}}, fmt.Sprintf("sparse:%d", sp))
+			}
+		}
+		p := c06E2ESparse(sp)
+		p.DropFrames = "leaf.*"
+		c06E2ECase(c, "e2e-sparse-ids", "cli", []*profile.Profile{p}, []c06E2EReport{{kind: "proto", opts: c06E2EOpts("prune_from", "helper"), tagroot: []string{"tenant"}}}, fmt.Sprintf("sparse:%d", sp))
+	}
 	// -- random: stack profiles of the core streams with drop/keep expressions, one or two sources,
 	//    prune_from alone and combined with other filters, through all three entry points
 	kn := c06StackKnobs{Names: c11Plain, Files: []string{"a.c"}, MapFiles: []string{"bin"}, MaxFuncs: 4, MaxLocs: 4, MaxLines: 3,
